@@ -1368,6 +1368,7 @@ crate::harnesses! {
     #[kani::stub(alloc::fmt::format, stub_format)]
     #[kani::stub(std::string::ToString::to_string, stub_to_string)]
     #[kani::stub(std::backtrace::Backtrace::capture, stub_backtrace_capture)]
+    #[kani::stub(<anyhow::Error as core::ops::Drop>::drop, stub_anyhow_drop)]
     c10_func_zeta11_be (quick, "FuncCodeWriter/Reader/Len::new(Codes::Zeta param 11)", "parameter beyond the documented set: either rejected, or performs exactly that code") => func_be::<_, {ZETA}, 11>;
     #[kani::unwind(12)]
     c10_func_pi0_be (thorough, "FuncCodeWriter/Reader/Len::new(Codes::Pi param 0), BE stream", "function-pointer dispatch vs the code own method; symbolic value") => func_be::<_, {PI}, 0>;
@@ -1416,6 +1417,7 @@ crate::harnesses! {
     #[kani::stub(alloc::fmt::format, stub_format)]
     #[kani::stub(std::string::ToString::to_string, stub_to_string)]
     #[kani::stub(std::backtrace::Backtrace::capture, stub_backtrace_capture)]
+    #[kani::stub(<anyhow::Error as core::ops::Drop>::drop, stub_anyhow_drop)]
     c10_func_pi11_be (quick, "FuncCodeWriter/Reader/Len::new(Codes::Pi param 11)", "parameter beyond the documented set: either rejected, or performs exactly that code") => func_be::<_, {PI}, 11>;
     #[kani::unwind(12)]
     c10_func_golomb1_be (thorough, "FuncCodeWriter/Reader/Len::new(Codes::Golomb param 1), BE stream", "function-pointer dispatch vs the code own method; symbolic value") => func_be::<_, {GOLOMB}, 1>;
@@ -1460,6 +1462,7 @@ crate::harnesses! {
     #[kani::stub(alloc::fmt::format, stub_format)]
     #[kani::stub(std::string::ToString::to_string, stub_to_string)]
     #[kani::stub(std::backtrace::Backtrace::capture, stub_backtrace_capture)]
+    #[kani::stub(<anyhow::Error as core::ops::Drop>::drop, stub_anyhow_drop)]
     c10_func_golomb11_be (quick, "FuncCodeWriter/Reader/Len::new(Codes::Golomb param 11)", "parameter beyond the documented set: either rejected, or performs exactly that code") => func_be::<_, {GOLOMB}, 11>;
     #[kani::unwind(12)]
     c10_func_exp_golomb0_be (thorough, "FuncCodeWriter/Reader/Len::new(Codes::ExpGolomb param 0), BE stream", "function-pointer dispatch vs the code own method; symbolic value") => func_be::<_, {EXP_GOLOMB}, 0>;
@@ -1508,6 +1511,7 @@ crate::harnesses! {
     #[kani::stub(alloc::fmt::format, stub_format)]
     #[kani::stub(std::string::ToString::to_string, stub_to_string)]
     #[kani::stub(std::backtrace::Backtrace::capture, stub_backtrace_capture)]
+    #[kani::stub(<anyhow::Error as core::ops::Drop>::drop, stub_anyhow_drop)]
     c10_func_exp_golomb11_be (quick, "FuncCodeWriter/Reader/Len::new(Codes::ExpGolomb param 11)", "parameter beyond the documented set: either rejected, or performs exactly that code") => func_be::<_, {EXP_GOLOMB}, 11>;
     #[kani::unwind(12)]
     c10_func_rice0_be (thorough, "FuncCodeWriter/Reader/Len::new(Codes::Rice param 0), BE stream", "function-pointer dispatch vs the code own method; symbolic value") => func_be::<_, {RICE}, 0>;
@@ -1556,595 +1560,714 @@ crate::harnesses! {
     #[kani::stub(alloc::fmt::format, stub_format)]
     #[kani::stub(std::string::ToString::to_string, stub_to_string)]
     #[kani::stub(std::backtrace::Backtrace::capture, stub_backtrace_capture)]
+    #[kani::stub(<anyhow::Error as core::ops::Drop>::drop, stub_anyhow_drop)]
     c10_func_rice11_be (quick, "FuncCodeWriter/Reader/Len::new(Codes::Rice param 11)", "parameter beyond the documented set: either rejected, or performs exactly that code") => func_be::<_, {RICE}, 11>;
     #[kani::stub(alloc::fmt::format, stub_format)]
     #[kani::stub(std::string::ToString::to_string, stub_to_string)]
     #[kani::stub(std::backtrace::Backtrace::capture, stub_backtrace_capture)]
+    #[kani::stub(<anyhow::Error as core::ops::Drop>::drop, stub_anyhow_drop)]
     #[kani::unwind(12)]
     c10_factory_unary0_be (thorough, "FactoryFuncCodeReader::new(Codes::Unary param 0) over a reader factory, BE stream", "get() and inner() vs the code own method; symbolic value") => factory_be::<_, {UNARY}, 0>;
     #[kani::stub(alloc::fmt::format, stub_format)]
     #[kani::stub(std::string::ToString::to_string, stub_to_string)]
     #[kani::stub(std::backtrace::Backtrace::capture, stub_backtrace_capture)]
+    #[kani::stub(<anyhow::Error as core::ops::Drop>::drop, stub_anyhow_drop)]
     #[kani::unwind(12)]
     c10_factory_unary0_le (thorough, "FactoryFuncCodeReader::new(Codes::Unary param 0) over a reader factory, LE stream", "get() and inner() vs the code own method; symbolic value") => factory_le::<_, {UNARY}, 0>;
     #[kani::stub(alloc::fmt::format, stub_format)]
     #[kani::stub(std::string::ToString::to_string, stub_to_string)]
     #[kani::stub(std::backtrace::Backtrace::capture, stub_backtrace_capture)]
+    #[kani::stub(<anyhow::Error as core::ops::Drop>::drop, stub_anyhow_drop)]
     #[kani::unwind(12)]
     c10_factory_gamma0_be (quick, "FactoryFuncCodeReader::new(Codes::Gamma param 0) over a reader factory, BE stream", "get() and inner() vs the code own method; symbolic value") => factory_be::<_, {GAMMA}, 0>;
     #[kani::stub(alloc::fmt::format, stub_format)]
     #[kani::stub(std::string::ToString::to_string, stub_to_string)]
     #[kani::stub(std::backtrace::Backtrace::capture, stub_backtrace_capture)]
+    #[kani::stub(<anyhow::Error as core::ops::Drop>::drop, stub_anyhow_drop)]
     #[kani::unwind(12)]
     c10_factory_gamma0_le (thorough, "FactoryFuncCodeReader::new(Codes::Gamma param 0) over a reader factory, LE stream", "get() and inner() vs the code own method; symbolic value") => factory_le::<_, {GAMMA}, 0>;
     #[kani::stub(alloc::fmt::format, stub_format)]
     #[kani::stub(std::string::ToString::to_string, stub_to_string)]
     #[kani::stub(std::backtrace::Backtrace::capture, stub_backtrace_capture)]
+    #[kani::stub(<anyhow::Error as core::ops::Drop>::drop, stub_anyhow_drop)]
     #[kani::unwind(12)]
     c10_factory_delta0_be (thorough, "FactoryFuncCodeReader::new(Codes::Delta param 0) over a reader factory, BE stream", "get() and inner() vs the code own method; symbolic value") => factory_be::<_, {DELTA}, 0>;
     #[kani::stub(alloc::fmt::format, stub_format)]
     #[kani::stub(std::string::ToString::to_string, stub_to_string)]
     #[kani::stub(std::backtrace::Backtrace::capture, stub_backtrace_capture)]
+    #[kani::stub(<anyhow::Error as core::ops::Drop>::drop, stub_anyhow_drop)]
     #[kani::unwind(12)]
     c10_factory_delta0_le (thorough, "FactoryFuncCodeReader::new(Codes::Delta param 0) over a reader factory, LE stream", "get() and inner() vs the code own method; symbolic value") => factory_le::<_, {DELTA}, 0>;
     #[kani::stub(alloc::fmt::format, stub_format)]
     #[kani::stub(std::string::ToString::to_string, stub_to_string)]
     #[kani::stub(std::backtrace::Backtrace::capture, stub_backtrace_capture)]
+    #[kani::stub(<anyhow::Error as core::ops::Drop>::drop, stub_anyhow_drop)]
     #[kani::unwind(12)]
     c10_factory_omega0_be (thorough, "FactoryFuncCodeReader::new(Codes::Omega param 0) over a reader factory, BE stream", "get() and inner() vs the code own method; symbolic value") => factory_be::<_, {OMEGA}, 0>;
     #[kani::stub(alloc::fmt::format, stub_format)]
     #[kani::stub(std::string::ToString::to_string, stub_to_string)]
     #[kani::stub(std::backtrace::Backtrace::capture, stub_backtrace_capture)]
+    #[kani::stub(<anyhow::Error as core::ops::Drop>::drop, stub_anyhow_drop)]
     #[kani::unwind(12)]
     c10_factory_omega0_le (thorough, "FactoryFuncCodeReader::new(Codes::Omega param 0) over a reader factory, LE stream", "get() and inner() vs the code own method; symbolic value") => factory_le::<_, {OMEGA}, 0>;
     #[kani::stub(alloc::fmt::format, stub_format)]
     #[kani::stub(std::string::ToString::to_string, stub_to_string)]
     #[kani::stub(std::backtrace::Backtrace::capture, stub_backtrace_capture)]
+    #[kani::stub(<anyhow::Error as core::ops::Drop>::drop, stub_anyhow_drop)]
     #[kani::unwind(12)]
     c10_factory_vbyte_be0_be (thorough, "FactoryFuncCodeReader::new(Codes::VbyteBe param 0) over a reader factory, BE stream", "get() and inner() vs the code own method; symbolic value") => factory_be::<_, {VBYTE_BE}, 0>;
     #[kani::stub(alloc::fmt::format, stub_format)]
     #[kani::stub(std::string::ToString::to_string, stub_to_string)]
     #[kani::stub(std::backtrace::Backtrace::capture, stub_backtrace_capture)]
+    #[kani::stub(<anyhow::Error as core::ops::Drop>::drop, stub_anyhow_drop)]
     #[kani::unwind(12)]
     c10_factory_vbyte_be0_le (thorough, "FactoryFuncCodeReader::new(Codes::VbyteBe param 0) over a reader factory, LE stream", "get() and inner() vs the code own method; symbolic value") => factory_le::<_, {VBYTE_BE}, 0>;
     #[kani::stub(alloc::fmt::format, stub_format)]
     #[kani::stub(std::string::ToString::to_string, stub_to_string)]
     #[kani::stub(std::backtrace::Backtrace::capture, stub_backtrace_capture)]
+    #[kani::stub(<anyhow::Error as core::ops::Drop>::drop, stub_anyhow_drop)]
     #[kani::unwind(12)]
     c10_factory_vbyte_le0_be (thorough, "FactoryFuncCodeReader::new(Codes::VbyteLe param 0) over a reader factory, BE stream", "get() and inner() vs the code own method; symbolic value") => factory_be::<_, {VBYTE_LE}, 0>;
     #[kani::stub(alloc::fmt::format, stub_format)]
     #[kani::stub(std::string::ToString::to_string, stub_to_string)]
     #[kani::stub(std::backtrace::Backtrace::capture, stub_backtrace_capture)]
+    #[kani::stub(<anyhow::Error as core::ops::Drop>::drop, stub_anyhow_drop)]
     #[kani::unwind(12)]
     c10_factory_vbyte_le0_le (thorough, "FactoryFuncCodeReader::new(Codes::VbyteLe param 0) over a reader factory, LE stream", "get() and inner() vs the code own method; symbolic value") => factory_le::<_, {VBYTE_LE}, 0>;
     #[kani::stub(alloc::fmt::format, stub_format)]
     #[kani::stub(std::string::ToString::to_string, stub_to_string)]
     #[kani::stub(std::backtrace::Backtrace::capture, stub_backtrace_capture)]
+    #[kani::stub(<anyhow::Error as core::ops::Drop>::drop, stub_anyhow_drop)]
     #[kani::unwind(12)]
     c10_factory_zeta1_be (thorough, "FactoryFuncCodeReader::new(Codes::Zeta param 1) over a reader factory, BE stream", "get() and inner() vs the code own method; symbolic value") => factory_be::<_, {ZETA}, 1>;
     #[kani::stub(alloc::fmt::format, stub_format)]
     #[kani::stub(std::string::ToString::to_string, stub_to_string)]
     #[kani::stub(std::backtrace::Backtrace::capture, stub_backtrace_capture)]
+    #[kani::stub(<anyhow::Error as core::ops::Drop>::drop, stub_anyhow_drop)]
     #[kani::unwind(12)]
     c10_factory_zeta1_le (thorough, "FactoryFuncCodeReader::new(Codes::Zeta param 1) over a reader factory, LE stream", "get() and inner() vs the code own method; symbolic value") => factory_le::<_, {ZETA}, 1>;
     #[kani::stub(alloc::fmt::format, stub_format)]
     #[kani::stub(std::string::ToString::to_string, stub_to_string)]
     #[kani::stub(std::backtrace::Backtrace::capture, stub_backtrace_capture)]
+    #[kani::stub(<anyhow::Error as core::ops::Drop>::drop, stub_anyhow_drop)]
     #[kani::unwind(12)]
     c10_factory_zeta2_be (thorough, "FactoryFuncCodeReader::new(Codes::Zeta param 2) over a reader factory, BE stream", "get() and inner() vs the code own method; symbolic value") => factory_be::<_, {ZETA}, 2>;
     #[kani::stub(alloc::fmt::format, stub_format)]
     #[kani::stub(std::string::ToString::to_string, stub_to_string)]
     #[kani::stub(std::backtrace::Backtrace::capture, stub_backtrace_capture)]
+    #[kani::stub(<anyhow::Error as core::ops::Drop>::drop, stub_anyhow_drop)]
     #[kani::unwind(12)]
     c10_factory_zeta2_le (thorough, "FactoryFuncCodeReader::new(Codes::Zeta param 2) over a reader factory, LE stream", "get() and inner() vs the code own method; symbolic value") => factory_le::<_, {ZETA}, 2>;
     #[kani::stub(alloc::fmt::format, stub_format)]
     #[kani::stub(std::string::ToString::to_string, stub_to_string)]
     #[kani::stub(std::backtrace::Backtrace::capture, stub_backtrace_capture)]
+    #[kani::stub(<anyhow::Error as core::ops::Drop>::drop, stub_anyhow_drop)]
     #[kani::unwind(12)]
     c10_factory_zeta3_be (quick, "FactoryFuncCodeReader::new(Codes::Zeta param 3) over a reader factory, BE stream", "get() and inner() vs the code own method; symbolic value") => factory_be::<_, {ZETA}, 3>;
     #[kani::stub(alloc::fmt::format, stub_format)]
     #[kani::stub(std::string::ToString::to_string, stub_to_string)]
     #[kani::stub(std::backtrace::Backtrace::capture, stub_backtrace_capture)]
+    #[kani::stub(<anyhow::Error as core::ops::Drop>::drop, stub_anyhow_drop)]
     #[kani::unwind(12)]
     c10_factory_zeta3_le (thorough, "FactoryFuncCodeReader::new(Codes::Zeta param 3) over a reader factory, LE stream", "get() and inner() vs the code own method; symbolic value") => factory_le::<_, {ZETA}, 3>;
     #[kani::stub(alloc::fmt::format, stub_format)]
     #[kani::stub(std::string::ToString::to_string, stub_to_string)]
     #[kani::stub(std::backtrace::Backtrace::capture, stub_backtrace_capture)]
+    #[kani::stub(<anyhow::Error as core::ops::Drop>::drop, stub_anyhow_drop)]
     #[kani::unwind(12)]
     c10_factory_zeta4_be (thorough, "FactoryFuncCodeReader::new(Codes::Zeta param 4) over a reader factory, BE stream", "get() and inner() vs the code own method; symbolic value") => factory_be::<_, {ZETA}, 4>;
     #[kani::stub(alloc::fmt::format, stub_format)]
     #[kani::stub(std::string::ToString::to_string, stub_to_string)]
     #[kani::stub(std::backtrace::Backtrace::capture, stub_backtrace_capture)]
+    #[kani::stub(<anyhow::Error as core::ops::Drop>::drop, stub_anyhow_drop)]
     #[kani::unwind(12)]
     c10_factory_zeta4_le (thorough, "FactoryFuncCodeReader::new(Codes::Zeta param 4) over a reader factory, LE stream", "get() and inner() vs the code own method; symbolic value") => factory_le::<_, {ZETA}, 4>;
     #[kani::stub(alloc::fmt::format, stub_format)]
     #[kani::stub(std::string::ToString::to_string, stub_to_string)]
     #[kani::stub(std::backtrace::Backtrace::capture, stub_backtrace_capture)]
+    #[kani::stub(<anyhow::Error as core::ops::Drop>::drop, stub_anyhow_drop)]
     #[kani::unwind(12)]
     c10_factory_zeta5_be (thorough, "FactoryFuncCodeReader::new(Codes::Zeta param 5) over a reader factory, BE stream", "get() and inner() vs the code own method; symbolic value") => factory_be::<_, {ZETA}, 5>;
     #[kani::stub(alloc::fmt::format, stub_format)]
     #[kani::stub(std::string::ToString::to_string, stub_to_string)]
     #[kani::stub(std::backtrace::Backtrace::capture, stub_backtrace_capture)]
+    #[kani::stub(<anyhow::Error as core::ops::Drop>::drop, stub_anyhow_drop)]
     #[kani::unwind(12)]
     c10_factory_zeta5_le (thorough, "FactoryFuncCodeReader::new(Codes::Zeta param 5) over a reader factory, LE stream", "get() and inner() vs the code own method; symbolic value") => factory_le::<_, {ZETA}, 5>;
     #[kani::stub(alloc::fmt::format, stub_format)]
     #[kani::stub(std::string::ToString::to_string, stub_to_string)]
     #[kani::stub(std::backtrace::Backtrace::capture, stub_backtrace_capture)]
+    #[kani::stub(<anyhow::Error as core::ops::Drop>::drop, stub_anyhow_drop)]
     #[kani::unwind(12)]
     c10_factory_zeta6_be (thorough, "FactoryFuncCodeReader::new(Codes::Zeta param 6) over a reader factory, BE stream", "get() and inner() vs the code own method; symbolic value") => factory_be::<_, {ZETA}, 6>;
     #[kani::stub(alloc::fmt::format, stub_format)]
     #[kani::stub(std::string::ToString::to_string, stub_to_string)]
     #[kani::stub(std::backtrace::Backtrace::capture, stub_backtrace_capture)]
+    #[kani::stub(<anyhow::Error as core::ops::Drop>::drop, stub_anyhow_drop)]
     #[kani::unwind(12)]
     c10_factory_zeta6_le (thorough, "FactoryFuncCodeReader::new(Codes::Zeta param 6) over a reader factory, LE stream", "get() and inner() vs the code own method; symbolic value") => factory_le::<_, {ZETA}, 6>;
     #[kani::stub(alloc::fmt::format, stub_format)]
     #[kani::stub(std::string::ToString::to_string, stub_to_string)]
     #[kani::stub(std::backtrace::Backtrace::capture, stub_backtrace_capture)]
+    #[kani::stub(<anyhow::Error as core::ops::Drop>::drop, stub_anyhow_drop)]
     #[kani::unwind(12)]
     c10_factory_zeta7_be (thorough, "FactoryFuncCodeReader::new(Codes::Zeta param 7) over a reader factory, BE stream", "get() and inner() vs the code own method; symbolic value") => factory_be::<_, {ZETA}, 7>;
     #[kani::stub(alloc::fmt::format, stub_format)]
     #[kani::stub(std::string::ToString::to_string, stub_to_string)]
     #[kani::stub(std::backtrace::Backtrace::capture, stub_backtrace_capture)]
+    #[kani::stub(<anyhow::Error as core::ops::Drop>::drop, stub_anyhow_drop)]
     #[kani::unwind(12)]
     c10_factory_zeta7_le (thorough, "FactoryFuncCodeReader::new(Codes::Zeta param 7) over a reader factory, LE stream", "get() and inner() vs the code own method; symbolic value") => factory_le::<_, {ZETA}, 7>;
     #[kani::stub(alloc::fmt::format, stub_format)]
     #[kani::stub(std::string::ToString::to_string, stub_to_string)]
     #[kani::stub(std::backtrace::Backtrace::capture, stub_backtrace_capture)]
+    #[kani::stub(<anyhow::Error as core::ops::Drop>::drop, stub_anyhow_drop)]
     #[kani::unwind(12)]
     c10_factory_zeta8_be (thorough, "FactoryFuncCodeReader::new(Codes::Zeta param 8) over a reader factory, BE stream", "get() and inner() vs the code own method; symbolic value") => factory_be::<_, {ZETA}, 8>;
     #[kani::stub(alloc::fmt::format, stub_format)]
     #[kani::stub(std::string::ToString::to_string, stub_to_string)]
     #[kani::stub(std::backtrace::Backtrace::capture, stub_backtrace_capture)]
+    #[kani::stub(<anyhow::Error as core::ops::Drop>::drop, stub_anyhow_drop)]
     #[kani::unwind(12)]
     c10_factory_zeta8_le (thorough, "FactoryFuncCodeReader::new(Codes::Zeta param 8) over a reader factory, LE stream", "get() and inner() vs the code own method; symbolic value") => factory_le::<_, {ZETA}, 8>;
     #[kani::stub(alloc::fmt::format, stub_format)]
     #[kani::stub(std::string::ToString::to_string, stub_to_string)]
     #[kani::stub(std::backtrace::Backtrace::capture, stub_backtrace_capture)]
+    #[kani::stub(<anyhow::Error as core::ops::Drop>::drop, stub_anyhow_drop)]
     #[kani::unwind(12)]
     c10_factory_zeta9_be (thorough, "FactoryFuncCodeReader::new(Codes::Zeta param 9) over a reader factory, BE stream", "get() and inner() vs the code own method; symbolic value") => factory_be::<_, {ZETA}, 9>;
     #[kani::stub(alloc::fmt::format, stub_format)]
     #[kani::stub(std::string::ToString::to_string, stub_to_string)]
     #[kani::stub(std::backtrace::Backtrace::capture, stub_backtrace_capture)]
+    #[kani::stub(<anyhow::Error as core::ops::Drop>::drop, stub_anyhow_drop)]
     #[kani::unwind(12)]
     c10_factory_zeta9_le (thorough, "FactoryFuncCodeReader::new(Codes::Zeta param 9) over a reader factory, LE stream", "get() and inner() vs the code own method; symbolic value") => factory_le::<_, {ZETA}, 9>;
     #[kani::stub(alloc::fmt::format, stub_format)]
     #[kani::stub(std::string::ToString::to_string, stub_to_string)]
     #[kani::stub(std::backtrace::Backtrace::capture, stub_backtrace_capture)]
+    #[kani::stub(<anyhow::Error as core::ops::Drop>::drop, stub_anyhow_drop)]
     #[kani::unwind(12)]
     c10_factory_zeta10_be (thorough, "FactoryFuncCodeReader::new(Codes::Zeta param 10) over a reader factory, BE stream", "get() and inner() vs the code own method; symbolic value") => factory_be::<_, {ZETA}, 10>;
     #[kani::stub(alloc::fmt::format, stub_format)]
     #[kani::stub(std::string::ToString::to_string, stub_to_string)]
     #[kani::stub(std::backtrace::Backtrace::capture, stub_backtrace_capture)]
+    #[kani::stub(<anyhow::Error as core::ops::Drop>::drop, stub_anyhow_drop)]
     #[kani::unwind(12)]
     c10_factory_zeta10_le (thorough, "FactoryFuncCodeReader::new(Codes::Zeta param 10) over a reader factory, LE stream", "get() and inner() vs the code own method; symbolic value") => factory_le::<_, {ZETA}, 10>;
     #[kani::stub(alloc::fmt::format, stub_format)]
     #[kani::stub(std::string::ToString::to_string, stub_to_string)]
     #[kani::stub(std::backtrace::Backtrace::capture, stub_backtrace_capture)]
+    #[kani::stub(<anyhow::Error as core::ops::Drop>::drop, stub_anyhow_drop)]
     #[kani::unwind(12)]
     c10_factory_pi0_be (thorough, "FactoryFuncCodeReader::new(Codes::Pi param 0) over a reader factory, BE stream", "get() and inner() vs the code own method; symbolic value") => factory_be::<_, {PI}, 0>;
     #[kani::stub(alloc::fmt::format, stub_format)]
     #[kani::stub(std::string::ToString::to_string, stub_to_string)]
     #[kani::stub(std::backtrace::Backtrace::capture, stub_backtrace_capture)]
+    #[kani::stub(<anyhow::Error as core::ops::Drop>::drop, stub_anyhow_drop)]
     #[kani::unwind(12)]
     c10_factory_pi0_le (thorough, "FactoryFuncCodeReader::new(Codes::Pi param 0) over a reader factory, LE stream", "get() and inner() vs the code own method; symbolic value") => factory_le::<_, {PI}, 0>;
     #[kani::stub(alloc::fmt::format, stub_format)]
     #[kani::stub(std::string::ToString::to_string, stub_to_string)]
     #[kani::stub(std::backtrace::Backtrace::capture, stub_backtrace_capture)]
+    #[kani::stub(<anyhow::Error as core::ops::Drop>::drop, stub_anyhow_drop)]
     #[kani::unwind(12)]
     c10_factory_pi1_be (quick, "FactoryFuncCodeReader::new(Codes::Pi param 1) over a reader factory, BE stream", "get() and inner() vs the code own method; symbolic value") => factory_be::<_, {PI}, 1>;
     #[kani::stub(alloc::fmt::format, stub_format)]
     #[kani::stub(std::string::ToString::to_string, stub_to_string)]
     #[kani::stub(std::backtrace::Backtrace::capture, stub_backtrace_capture)]
+    #[kani::stub(<anyhow::Error as core::ops::Drop>::drop, stub_anyhow_drop)]
     #[kani::unwind(12)]
     c10_factory_pi1_le (thorough, "FactoryFuncCodeReader::new(Codes::Pi param 1) over a reader factory, LE stream", "get() and inner() vs the code own method; symbolic value") => factory_le::<_, {PI}, 1>;
     #[kani::stub(alloc::fmt::format, stub_format)]
     #[kani::stub(std::string::ToString::to_string, stub_to_string)]
     #[kani::stub(std::backtrace::Backtrace::capture, stub_backtrace_capture)]
+    #[kani::stub(<anyhow::Error as core::ops::Drop>::drop, stub_anyhow_drop)]
     #[kani::unwind(12)]
     c10_factory_pi2_be (thorough, "FactoryFuncCodeReader::new(Codes::Pi param 2) over a reader factory, BE stream", "get() and inner() vs the code own method; symbolic value") => factory_be::<_, {PI}, 2>;
     #[kani::stub(alloc::fmt::format, stub_format)]
     #[kani::stub(std::string::ToString::to_string, stub_to_string)]
     #[kani::stub(std::backtrace::Backtrace::capture, stub_backtrace_capture)]
+    #[kani::stub(<anyhow::Error as core::ops::Drop>::drop, stub_anyhow_drop)]
     #[kani::unwind(12)]
     c10_factory_pi2_le (thorough, "FactoryFuncCodeReader::new(Codes::Pi param 2) over a reader factory, LE stream", "get() and inner() vs the code own method; symbolic value") => factory_le::<_, {PI}, 2>;
     #[kani::stub(alloc::fmt::format, stub_format)]
     #[kani::stub(std::string::ToString::to_string, stub_to_string)]
     #[kani::stub(std::backtrace::Backtrace::capture, stub_backtrace_capture)]
+    #[kani::stub(<anyhow::Error as core::ops::Drop>::drop, stub_anyhow_drop)]
     #[kani::unwind(12)]
     c10_factory_pi3_be (thorough, "FactoryFuncCodeReader::new(Codes::Pi param 3) over a reader factory, BE stream", "get() and inner() vs the code own method; symbolic value") => factory_be::<_, {PI}, 3>;
     #[kani::stub(alloc::fmt::format, stub_format)]
     #[kani::stub(std::string::ToString::to_string, stub_to_string)]
     #[kani::stub(std::backtrace::Backtrace::capture, stub_backtrace_capture)]
+    #[kani::stub(<anyhow::Error as core::ops::Drop>::drop, stub_anyhow_drop)]
     #[kani::unwind(12)]
     c10_factory_pi3_le (thorough, "FactoryFuncCodeReader::new(Codes::Pi param 3) over a reader factory, LE stream", "get() and inner() vs the code own method; symbolic value") => factory_le::<_, {PI}, 3>;
     #[kani::stub(alloc::fmt::format, stub_format)]
     #[kani::stub(std::string::ToString::to_string, stub_to_string)]
     #[kani::stub(std::backtrace::Backtrace::capture, stub_backtrace_capture)]
+    #[kani::stub(<anyhow::Error as core::ops::Drop>::drop, stub_anyhow_drop)]
     #[kani::unwind(12)]
     c10_factory_pi4_be (thorough, "FactoryFuncCodeReader::new(Codes::Pi param 4) over a reader factory, BE stream", "get() and inner() vs the code own method; symbolic value") => factory_be::<_, {PI}, 4>;
     #[kani::stub(alloc::fmt::format, stub_format)]
     #[kani::stub(std::string::ToString::to_string, stub_to_string)]
     #[kani::stub(std::backtrace::Backtrace::capture, stub_backtrace_capture)]
+    #[kani::stub(<anyhow::Error as core::ops::Drop>::drop, stub_anyhow_drop)]
     #[kani::unwind(12)]
     c10_factory_pi4_le (thorough, "FactoryFuncCodeReader::new(Codes::Pi param 4) over a reader factory, LE stream", "get() and inner() vs the code own method; symbolic value") => factory_le::<_, {PI}, 4>;
     #[kani::stub(alloc::fmt::format, stub_format)]
     #[kani::stub(std::string::ToString::to_string, stub_to_string)]
     #[kani::stub(std::backtrace::Backtrace::capture, stub_backtrace_capture)]
+    #[kani::stub(<anyhow::Error as core::ops::Drop>::drop, stub_anyhow_drop)]
     #[kani::unwind(12)]
     c10_factory_pi5_be (thorough, "FactoryFuncCodeReader::new(Codes::Pi param 5) over a reader factory, BE stream", "get() and inner() vs the code own method; symbolic value") => factory_be::<_, {PI}, 5>;
     #[kani::stub(alloc::fmt::format, stub_format)]
     #[kani::stub(std::string::ToString::to_string, stub_to_string)]
     #[kani::stub(std::backtrace::Backtrace::capture, stub_backtrace_capture)]
+    #[kani::stub(<anyhow::Error as core::ops::Drop>::drop, stub_anyhow_drop)]
     #[kani::unwind(12)]
     c10_factory_pi5_le (thorough, "FactoryFuncCodeReader::new(Codes::Pi param 5) over a reader factory, LE stream", "get() and inner() vs the code own method; symbolic value") => factory_le::<_, {PI}, 5>;
     #[kani::stub(alloc::fmt::format, stub_format)]
     #[kani::stub(std::string::ToString::to_string, stub_to_string)]
     #[kani::stub(std::backtrace::Backtrace::capture, stub_backtrace_capture)]
+    #[kani::stub(<anyhow::Error as core::ops::Drop>::drop, stub_anyhow_drop)]
     #[kani::unwind(12)]
     c10_factory_pi6_be (thorough, "FactoryFuncCodeReader::new(Codes::Pi param 6) over a reader factory, BE stream", "get() and inner() vs the code own method; symbolic value") => factory_be::<_, {PI}, 6>;
     #[kani::stub(alloc::fmt::format, stub_format)]
     #[kani::stub(std::string::ToString::to_string, stub_to_string)]
     #[kani::stub(std::backtrace::Backtrace::capture, stub_backtrace_capture)]
+    #[kani::stub(<anyhow::Error as core::ops::Drop>::drop, stub_anyhow_drop)]
     #[kani::unwind(12)]
     c10_factory_pi6_le (thorough, "FactoryFuncCodeReader::new(Codes::Pi param 6) over a reader factory, LE stream", "get() and inner() vs the code own method; symbolic value") => factory_le::<_, {PI}, 6>;
     #[kani::stub(alloc::fmt::format, stub_format)]
     #[kani::stub(std::string::ToString::to_string, stub_to_string)]
     #[kani::stub(std::backtrace::Backtrace::capture, stub_backtrace_capture)]
+    #[kani::stub(<anyhow::Error as core::ops::Drop>::drop, stub_anyhow_drop)]
     #[kani::unwind(12)]
     c10_factory_pi7_be (thorough, "FactoryFuncCodeReader::new(Codes::Pi param 7) over a reader factory, BE stream", "get() and inner() vs the code own method; symbolic value") => factory_be::<_, {PI}, 7>;
     #[kani::stub(alloc::fmt::format, stub_format)]
     #[kani::stub(std::string::ToString::to_string, stub_to_string)]
     #[kani::stub(std::backtrace::Backtrace::capture, stub_backtrace_capture)]
+    #[kani::stub(<anyhow::Error as core::ops::Drop>::drop, stub_anyhow_drop)]
     #[kani::unwind(12)]
     c10_factory_pi7_le (thorough, "FactoryFuncCodeReader::new(Codes::Pi param 7) over a reader factory, LE stream", "get() and inner() vs the code own method; symbolic value") => factory_le::<_, {PI}, 7>;
     #[kani::stub(alloc::fmt::format, stub_format)]
     #[kani::stub(std::string::ToString::to_string, stub_to_string)]
     #[kani::stub(std::backtrace::Backtrace::capture, stub_backtrace_capture)]
+    #[kani::stub(<anyhow::Error as core::ops::Drop>::drop, stub_anyhow_drop)]
     #[kani::unwind(12)]
     c10_factory_pi8_be (thorough, "FactoryFuncCodeReader::new(Codes::Pi param 8) over a reader factory, BE stream", "get() and inner() vs the code own method; symbolic value") => factory_be::<_, {PI}, 8>;
     #[kani::stub(alloc::fmt::format, stub_format)]
     #[kani::stub(std::string::ToString::to_string, stub_to_string)]
     #[kani::stub(std::backtrace::Backtrace::capture, stub_backtrace_capture)]
+    #[kani::stub(<anyhow::Error as core::ops::Drop>::drop, stub_anyhow_drop)]
     #[kani::unwind(12)]
     c10_factory_pi8_le (thorough, "FactoryFuncCodeReader::new(Codes::Pi param 8) over a reader factory, LE stream", "get() and inner() vs the code own method; symbolic value") => factory_le::<_, {PI}, 8>;
     #[kani::stub(alloc::fmt::format, stub_format)]
     #[kani::stub(std::string::ToString::to_string, stub_to_string)]
     #[kani::stub(std::backtrace::Backtrace::capture, stub_backtrace_capture)]
+    #[kani::stub(<anyhow::Error as core::ops::Drop>::drop, stub_anyhow_drop)]
     #[kani::unwind(12)]
     c10_factory_pi9_be (thorough, "FactoryFuncCodeReader::new(Codes::Pi param 9) over a reader factory, BE stream", "get() and inner() vs the code own method; symbolic value") => factory_be::<_, {PI}, 9>;
     #[kani::stub(alloc::fmt::format, stub_format)]
     #[kani::stub(std::string::ToString::to_string, stub_to_string)]
     #[kani::stub(std::backtrace::Backtrace::capture, stub_backtrace_capture)]
+    #[kani::stub(<anyhow::Error as core::ops::Drop>::drop, stub_anyhow_drop)]
     #[kani::unwind(12)]
     c10_factory_pi9_le (thorough, "FactoryFuncCodeReader::new(Codes::Pi param 9) over a reader factory, LE stream", "get() and inner() vs the code own method; symbolic value") => factory_le::<_, {PI}, 9>;
     #[kani::stub(alloc::fmt::format, stub_format)]
     #[kani::stub(std::string::ToString::to_string, stub_to_string)]
     #[kani::stub(std::backtrace::Backtrace::capture, stub_backtrace_capture)]
+    #[kani::stub(<anyhow::Error as core::ops::Drop>::drop, stub_anyhow_drop)]
     #[kani::unwind(12)]
     c10_factory_pi10_be (thorough, "FactoryFuncCodeReader::new(Codes::Pi param 10) over a reader factory, BE stream", "get() and inner() vs the code own method; symbolic value") => factory_be::<_, {PI}, 10>;
     #[kani::stub(alloc::fmt::format, stub_format)]
     #[kani::stub(std::string::ToString::to_string, stub_to_string)]
     #[kani::stub(std::backtrace::Backtrace::capture, stub_backtrace_capture)]
+    #[kani::stub(<anyhow::Error as core::ops::Drop>::drop, stub_anyhow_drop)]
     #[kani::unwind(12)]
     c10_factory_pi10_le (thorough, "FactoryFuncCodeReader::new(Codes::Pi param 10) over a reader factory, LE stream", "get() and inner() vs the code own method; symbolic value") => factory_le::<_, {PI}, 10>;
     #[kani::stub(alloc::fmt::format, stub_format)]
     #[kani::stub(std::string::ToString::to_string, stub_to_string)]
     #[kani::stub(std::backtrace::Backtrace::capture, stub_backtrace_capture)]
+    #[kani::stub(<anyhow::Error as core::ops::Drop>::drop, stub_anyhow_drop)]
     #[kani::unwind(12)]
     c10_factory_golomb1_be (thorough, "FactoryFuncCodeReader::new(Codes::Golomb param 1) over a reader factory, BE stream", "get() and inner() vs the code own method; symbolic value") => factory_be::<_, {GOLOMB}, 1>;
     #[kani::stub(alloc::fmt::format, stub_format)]
     #[kani::stub(std::string::ToString::to_string, stub_to_string)]
     #[kani::stub(std::backtrace::Backtrace::capture, stub_backtrace_capture)]
+    #[kani::stub(<anyhow::Error as core::ops::Drop>::drop, stub_anyhow_drop)]
     #[kani::unwind(12)]
     c10_factory_golomb1_le (thorough, "FactoryFuncCodeReader::new(Codes::Golomb param 1) over a reader factory, LE stream", "get() and inner() vs the code own method; symbolic value") => factory_le::<_, {GOLOMB}, 1>;
     #[kani::stub(alloc::fmt::format, stub_format)]
     #[kani::stub(std::string::ToString::to_string, stub_to_string)]
     #[kani::stub(std::backtrace::Backtrace::capture, stub_backtrace_capture)]
+    #[kani::stub(<anyhow::Error as core::ops::Drop>::drop, stub_anyhow_drop)]
     #[kani::unwind(12)]
     c10_factory_golomb2_be (thorough, "FactoryFuncCodeReader::new(Codes::Golomb param 2) over a reader factory, BE stream", "get() and inner() vs the code own method; symbolic value") => factory_be::<_, {GOLOMB}, 2>;
     #[kani::stub(alloc::fmt::format, stub_format)]
     #[kani::stub(std::string::ToString::to_string, stub_to_string)]
     #[kani::stub(std::backtrace::Backtrace::capture, stub_backtrace_capture)]
+    #[kani::stub(<anyhow::Error as core::ops::Drop>::drop, stub_anyhow_drop)]
     #[kani::unwind(12)]
     c10_factory_golomb2_le (thorough, "FactoryFuncCodeReader::new(Codes::Golomb param 2) over a reader factory, LE stream", "get() and inner() vs the code own method; symbolic value") => factory_le::<_, {GOLOMB}, 2>;
     #[kani::stub(alloc::fmt::format, stub_format)]
     #[kani::stub(std::string::ToString::to_string, stub_to_string)]
     #[kani::stub(std::backtrace::Backtrace::capture, stub_backtrace_capture)]
+    #[kani::stub(<anyhow::Error as core::ops::Drop>::drop, stub_anyhow_drop)]
     #[kani::unwind(12)]
     c10_factory_golomb3_be (thorough, "FactoryFuncCodeReader::new(Codes::Golomb param 3) over a reader factory, BE stream", "get() and inner() vs the code own method; symbolic value") => factory_be::<_, {GOLOMB}, 3>;
     #[kani::stub(alloc::fmt::format, stub_format)]
     #[kani::stub(std::string::ToString::to_string, stub_to_string)]
     #[kani::stub(std::backtrace::Backtrace::capture, stub_backtrace_capture)]
+    #[kani::stub(<anyhow::Error as core::ops::Drop>::drop, stub_anyhow_drop)]
     #[kani::unwind(12)]
     c10_factory_golomb3_le (thorough, "FactoryFuncCodeReader::new(Codes::Golomb param 3) over a reader factory, LE stream", "get() and inner() vs the code own method; symbolic value") => factory_le::<_, {GOLOMB}, 3>;
     #[kani::stub(alloc::fmt::format, stub_format)]
     #[kani::stub(std::string::ToString::to_string, stub_to_string)]
     #[kani::stub(std::backtrace::Backtrace::capture, stub_backtrace_capture)]
+    #[kani::stub(<anyhow::Error as core::ops::Drop>::drop, stub_anyhow_drop)]
     #[kani::unwind(12)]
     c10_factory_golomb4_be (quick, "FactoryFuncCodeReader::new(Codes::Golomb param 4) over a reader factory, BE stream", "get() and inner() vs the code own method; symbolic value") => factory_be::<_, {GOLOMB}, 4>;
     #[kani::stub(alloc::fmt::format, stub_format)]
     #[kani::stub(std::string::ToString::to_string, stub_to_string)]
     #[kani::stub(std::backtrace::Backtrace::capture, stub_backtrace_capture)]
+    #[kani::stub(<anyhow::Error as core::ops::Drop>::drop, stub_anyhow_drop)]
     #[kani::unwind(12)]
     c10_factory_golomb4_le (thorough, "FactoryFuncCodeReader::new(Codes::Golomb param 4) over a reader factory, LE stream", "get() and inner() vs the code own method; symbolic value") => factory_le::<_, {GOLOMB}, 4>;
     #[kani::stub(alloc::fmt::format, stub_format)]
     #[kani::stub(std::string::ToString::to_string, stub_to_string)]
     #[kani::stub(std::backtrace::Backtrace::capture, stub_backtrace_capture)]
+    #[kani::stub(<anyhow::Error as core::ops::Drop>::drop, stub_anyhow_drop)]
     #[kani::unwind(12)]
     c10_factory_golomb5_be (thorough, "FactoryFuncCodeReader::new(Codes::Golomb param 5) over a reader factory, BE stream", "get() and inner() vs the code own method; symbolic value") => factory_be::<_, {GOLOMB}, 5>;
     #[kani::stub(alloc::fmt::format, stub_format)]
     #[kani::stub(std::string::ToString::to_string, stub_to_string)]
     #[kani::stub(std::backtrace::Backtrace::capture, stub_backtrace_capture)]
+    #[kani::stub(<anyhow::Error as core::ops::Drop>::drop, stub_anyhow_drop)]
     #[kani::unwind(12)]
     c10_factory_golomb5_le (thorough, "FactoryFuncCodeReader::new(Codes::Golomb param 5) over a reader factory, LE stream", "get() and inner() vs the code own method; symbolic value") => factory_le::<_, {GOLOMB}, 5>;
     #[kani::stub(alloc::fmt::format, stub_format)]
     #[kani::stub(std::string::ToString::to_string, stub_to_string)]
     #[kani::stub(std::backtrace::Backtrace::capture, stub_backtrace_capture)]
+    #[kani::stub(<anyhow::Error as core::ops::Drop>::drop, stub_anyhow_drop)]
     #[kani::unwind(12)]
     c10_factory_golomb6_be (thorough, "FactoryFuncCodeReader::new(Codes::Golomb param 6) over a reader factory, BE stream", "get() and inner() vs the code own method; symbolic value") => factory_be::<_, {GOLOMB}, 6>;
     #[kani::stub(alloc::fmt::format, stub_format)]
     #[kani::stub(std::string::ToString::to_string, stub_to_string)]
     #[kani::stub(std::backtrace::Backtrace::capture, stub_backtrace_capture)]
+    #[kani::stub(<anyhow::Error as core::ops::Drop>::drop, stub_anyhow_drop)]
     #[kani::unwind(12)]
     c10_factory_golomb6_le (thorough, "FactoryFuncCodeReader::new(Codes::Golomb param 6) over a reader factory, LE stream", "get() and inner() vs the code own method; symbolic value") => factory_le::<_, {GOLOMB}, 6>;
     #[kani::stub(alloc::fmt::format, stub_format)]
     #[kani::stub(std::string::ToString::to_string, stub_to_string)]
     #[kani::stub(std::backtrace::Backtrace::capture, stub_backtrace_capture)]
+    #[kani::stub(<anyhow::Error as core::ops::Drop>::drop, stub_anyhow_drop)]
     #[kani::unwind(12)]
     c10_factory_golomb7_be (thorough, "FactoryFuncCodeReader::new(Codes::Golomb param 7) over a reader factory, BE stream", "get() and inner() vs the code own method; symbolic value") => factory_be::<_, {GOLOMB}, 7>;
     #[kani::stub(alloc::fmt::format, stub_format)]
     #[kani::stub(std::string::ToString::to_string, stub_to_string)]
     #[kani::stub(std::backtrace::Backtrace::capture, stub_backtrace_capture)]
+    #[kani::stub(<anyhow::Error as core::ops::Drop>::drop, stub_anyhow_drop)]
     #[kani::unwind(12)]
     c10_factory_golomb7_le (thorough, "FactoryFuncCodeReader::new(Codes::Golomb param 7) over a reader factory, LE stream", "get() and inner() vs the code own method; symbolic value") => factory_le::<_, {GOLOMB}, 7>;
     #[kani::stub(alloc::fmt::format, stub_format)]
     #[kani::stub(std::string::ToString::to_string, stub_to_string)]
     #[kani::stub(std::backtrace::Backtrace::capture, stub_backtrace_capture)]
+    #[kani::stub(<anyhow::Error as core::ops::Drop>::drop, stub_anyhow_drop)]
     #[kani::unwind(12)]
     c10_factory_golomb8_be (quick, "FactoryFuncCodeReader::new(Codes::Golomb param 8) over a reader factory, BE stream", "get() and inner() vs the code own method; symbolic value") => factory_be::<_, {GOLOMB}, 8>;
     #[kani::stub(alloc::fmt::format, stub_format)]
     #[kani::stub(std::string::ToString::to_string, stub_to_string)]
     #[kani::stub(std::backtrace::Backtrace::capture, stub_backtrace_capture)]
+    #[kani::stub(<anyhow::Error as core::ops::Drop>::drop, stub_anyhow_drop)]
     #[kani::unwind(12)]
     c10_factory_golomb8_le (thorough, "FactoryFuncCodeReader::new(Codes::Golomb param 8) over a reader factory, LE stream", "get() and inner() vs the code own method; symbolic value") => factory_le::<_, {GOLOMB}, 8>;
     #[kani::stub(alloc::fmt::format, stub_format)]
     #[kani::stub(std::string::ToString::to_string, stub_to_string)]
     #[kani::stub(std::backtrace::Backtrace::capture, stub_backtrace_capture)]
+    #[kani::stub(<anyhow::Error as core::ops::Drop>::drop, stub_anyhow_drop)]
     #[kani::unwind(12)]
     c10_factory_golomb9_be (thorough, "FactoryFuncCodeReader::new(Codes::Golomb param 9) over a reader factory, BE stream", "get() and inner() vs the code own method; symbolic value") => factory_be::<_, {GOLOMB}, 9>;
     #[kani::stub(alloc::fmt::format, stub_format)]
     #[kani::stub(std::string::ToString::to_string, stub_to_string)]
     #[kani::stub(std::backtrace::Backtrace::capture, stub_backtrace_capture)]
+    #[kani::stub(<anyhow::Error as core::ops::Drop>::drop, stub_anyhow_drop)]
     #[kani::unwind(12)]
     c10_factory_golomb9_le (thorough, "FactoryFuncCodeReader::new(Codes::Golomb param 9) over a reader factory, LE stream", "get() and inner() vs the code own method; symbolic value") => factory_le::<_, {GOLOMB}, 9>;
     #[kani::stub(alloc::fmt::format, stub_format)]
     #[kani::stub(std::string::ToString::to_string, stub_to_string)]
     #[kani::stub(std::backtrace::Backtrace::capture, stub_backtrace_capture)]
+    #[kani::stub(<anyhow::Error as core::ops::Drop>::drop, stub_anyhow_drop)]
     #[kani::unwind(12)]
     c10_factory_golomb10_be (thorough, "FactoryFuncCodeReader::new(Codes::Golomb param 10) over a reader factory, BE stream", "get() and inner() vs the code own method; symbolic value") => factory_be::<_, {GOLOMB}, 10>;
     #[kani::stub(alloc::fmt::format, stub_format)]
     #[kani::stub(std::string::ToString::to_string, stub_to_string)]
     #[kani::stub(std::backtrace::Backtrace::capture, stub_backtrace_capture)]
+    #[kani::stub(<anyhow::Error as core::ops::Drop>::drop, stub_anyhow_drop)]
     #[kani::unwind(12)]
     c10_factory_golomb10_le (thorough, "FactoryFuncCodeReader::new(Codes::Golomb param 10) over a reader factory, LE stream", "get() and inner() vs the code own method; symbolic value") => factory_le::<_, {GOLOMB}, 10>;
     #[kani::stub(alloc::fmt::format, stub_format)]
     #[kani::stub(std::string::ToString::to_string, stub_to_string)]
     #[kani::stub(std::backtrace::Backtrace::capture, stub_backtrace_capture)]
+    #[kani::stub(<anyhow::Error as core::ops::Drop>::drop, stub_anyhow_drop)]
     #[kani::unwind(12)]
     c10_factory_exp_golomb0_be (quick, "FactoryFuncCodeReader::new(Codes::ExpGolomb param 0) over a reader factory, BE stream", "get() and inner() vs the code own method; symbolic value") => factory_be::<_, {EXP_GOLOMB}, 0>;
     #[kani::stub(alloc::fmt::format, stub_format)]
     #[kani::stub(std::string::ToString::to_string, stub_to_string)]
     #[kani::stub(std::backtrace::Backtrace::capture, stub_backtrace_capture)]
+    #[kani::stub(<anyhow::Error as core::ops::Drop>::drop, stub_anyhow_drop)]
     #[kani::unwind(12)]
     c10_factory_exp_golomb0_le (thorough, "FactoryFuncCodeReader::new(Codes::ExpGolomb param 0) over a reader factory, LE stream", "get() and inner() vs the code own method; symbolic value") => factory_le::<_, {EXP_GOLOMB}, 0>;
     #[kani::stub(alloc::fmt::format, stub_format)]
     #[kani::stub(std::string::ToString::to_string, stub_to_string)]
     #[kani::stub(std::backtrace::Backtrace::capture, stub_backtrace_capture)]
+    #[kani::stub(<anyhow::Error as core::ops::Drop>::drop, stub_anyhow_drop)]
     #[kani::unwind(12)]
     c10_factory_exp_golomb1_be (thorough, "FactoryFuncCodeReader::new(Codes::ExpGolomb param 1) over a reader factory, BE stream", "get() and inner() vs the code own method; symbolic value") => factory_be::<_, {EXP_GOLOMB}, 1>;
     #[kani::stub(alloc::fmt::format, stub_format)]
     #[kani::stub(std::string::ToString::to_string, stub_to_string)]
     #[kani::stub(std::backtrace::Backtrace::capture, stub_backtrace_capture)]
+    #[kani::stub(<anyhow::Error as core::ops::Drop>::drop, stub_anyhow_drop)]
     #[kani::unwind(12)]
     c10_factory_exp_golomb1_le (thorough, "FactoryFuncCodeReader::new(Codes::ExpGolomb param 1) over a reader factory, LE stream", "get() and inner() vs the code own method; symbolic value") => factory_le::<_, {EXP_GOLOMB}, 1>;
     #[kani::stub(alloc::fmt::format, stub_format)]
     #[kani::stub(std::string::ToString::to_string, stub_to_string)]
     #[kani::stub(std::backtrace::Backtrace::capture, stub_backtrace_capture)]
+    #[kani::stub(<anyhow::Error as core::ops::Drop>::drop, stub_anyhow_drop)]
     #[kani::unwind(12)]
     c10_factory_exp_golomb2_be (thorough, "FactoryFuncCodeReader::new(Codes::ExpGolomb param 2) over a reader factory, BE stream", "get() and inner() vs the code own method; symbolic value") => factory_be::<_, {EXP_GOLOMB}, 2>;
     #[kani::stub(alloc::fmt::format, stub_format)]
     #[kani::stub(std::string::ToString::to_string, stub_to_string)]
     #[kani::stub(std::backtrace::Backtrace::capture, stub_backtrace_capture)]
+    #[kani::stub(<anyhow::Error as core::ops::Drop>::drop, stub_anyhow_drop)]
     #[kani::unwind(12)]
     c10_factory_exp_golomb2_le (thorough, "FactoryFuncCodeReader::new(Codes::ExpGolomb param 2) over a reader factory, LE stream", "get() and inner() vs the code own method; symbolic value") => factory_le::<_, {EXP_GOLOMB}, 2>;
     #[kani::stub(alloc::fmt::format, stub_format)]
     #[kani::stub(std::string::ToString::to_string, stub_to_string)]
     #[kani::stub(std::backtrace::Backtrace::capture, stub_backtrace_capture)]
+    #[kani::stub(<anyhow::Error as core::ops::Drop>::drop, stub_anyhow_drop)]
     #[kani::unwind(12)]
     c10_factory_exp_golomb3_be (thorough, "FactoryFuncCodeReader::new(Codes::ExpGolomb param 3) over a reader factory, BE stream", "get() and inner() vs the code own method; symbolic value") => factory_be::<_, {EXP_GOLOMB}, 3>;
     #[kani::stub(alloc::fmt::format, stub_format)]
     #[kani::stub(std::string::ToString::to_string, stub_to_string)]
     #[kani::stub(std::backtrace::Backtrace::capture, stub_backtrace_capture)]
+    #[kani::stub(<anyhow::Error as core::ops::Drop>::drop, stub_anyhow_drop)]
     #[kani::unwind(12)]
     c10_factory_exp_golomb3_le (thorough, "FactoryFuncCodeReader::new(Codes::ExpGolomb param 3) over a reader factory, LE stream", "get() and inner() vs the code own method; symbolic value") => factory_le::<_, {EXP_GOLOMB}, 3>;
     #[kani::stub(alloc::fmt::format, stub_format)]
     #[kani::stub(std::string::ToString::to_string, stub_to_string)]
     #[kani::stub(std::backtrace::Backtrace::capture, stub_backtrace_capture)]
+    #[kani::stub(<anyhow::Error as core::ops::Drop>::drop, stub_anyhow_drop)]
     #[kani::unwind(12)]
     c10_factory_exp_golomb4_be (thorough, "FactoryFuncCodeReader::new(Codes::ExpGolomb param 4) over a reader factory, BE stream", "get() and inner() vs the code own method; symbolic value") => factory_be::<_, {EXP_GOLOMB}, 4>;
     #[kani::stub(alloc::fmt::format, stub_format)]
     #[kani::stub(std::string::ToString::to_string, stub_to_string)]
     #[kani::stub(std::backtrace::Backtrace::capture, stub_backtrace_capture)]
+    #[kani::stub(<anyhow::Error as core::ops::Drop>::drop, stub_anyhow_drop)]
     #[kani::unwind(12)]
     c10_factory_exp_golomb4_le (thorough, "FactoryFuncCodeReader::new(Codes::ExpGolomb param 4) over a reader factory, LE stream", "get() and inner() vs the code own method; symbolic value") => factory_le::<_, {EXP_GOLOMB}, 4>;
     #[kani::stub(alloc::fmt::format, stub_format)]
     #[kani::stub(std::string::ToString::to_string, stub_to_string)]
     #[kani::stub(std::backtrace::Backtrace::capture, stub_backtrace_capture)]
+    #[kani::stub(<anyhow::Error as core::ops::Drop>::drop, stub_anyhow_drop)]
     #[kani::unwind(12)]
     c10_factory_exp_golomb5_be (thorough, "FactoryFuncCodeReader::new(Codes::ExpGolomb param 5) over a reader factory, BE stream", "get() and inner() vs the code own method; symbolic value") => factory_be::<_, {EXP_GOLOMB}, 5>;
     #[kani::stub(alloc::fmt::format, stub_format)]
     #[kani::stub(std::string::ToString::to_string, stub_to_string)]
     #[kani::stub(std::backtrace::Backtrace::capture, stub_backtrace_capture)]
+    #[kani::stub(<anyhow::Error as core::ops::Drop>::drop, stub_anyhow_drop)]
     #[kani::unwind(12)]
     c10_factory_exp_golomb5_le (thorough, "FactoryFuncCodeReader::new(Codes::ExpGolomb param 5) over a reader factory, LE stream", "get() and inner() vs the code own method; symbolic value") => factory_le::<_, {EXP_GOLOMB}, 5>;
     #[kani::stub(alloc::fmt::format, stub_format)]
     #[kani::stub(std::string::ToString::to_string, stub_to_string)]
     #[kani::stub(std::backtrace::Backtrace::capture, stub_backtrace_capture)]
+    #[kani::stub(<anyhow::Error as core::ops::Drop>::drop, stub_anyhow_drop)]
     #[kani::unwind(12)]
     c10_factory_exp_golomb6_be (thorough, "FactoryFuncCodeReader::new(Codes::ExpGolomb param 6) over a reader factory, BE stream", "get() and inner() vs the code own method; symbolic value") => factory_be::<_, {EXP_GOLOMB}, 6>;
     #[kani::stub(alloc::fmt::format, stub_format)]
     #[kani::stub(std::string::ToString::to_string, stub_to_string)]
     #[kani::stub(std::backtrace::Backtrace::capture, stub_backtrace_capture)]
+    #[kani::stub(<anyhow::Error as core::ops::Drop>::drop, stub_anyhow_drop)]
     #[kani::unwind(12)]
     c10_factory_exp_golomb6_le (thorough, "FactoryFuncCodeReader::new(Codes::ExpGolomb param 6) over a reader factory, LE stream", "get() and inner() vs the code own method; symbolic value") => factory_le::<_, {EXP_GOLOMB}, 6>;
     #[kani::stub(alloc::fmt::format, stub_format)]
     #[kani::stub(std::string::ToString::to_string, stub_to_string)]
     #[kani::stub(std::backtrace::Backtrace::capture, stub_backtrace_capture)]
+    #[kani::stub(<anyhow::Error as core::ops::Drop>::drop, stub_anyhow_drop)]
     #[kani::unwind(12)]
     c10_factory_exp_golomb7_be (thorough, "FactoryFuncCodeReader::new(Codes::ExpGolomb param 7) over a reader factory, BE stream", "get() and inner() vs the code own method; symbolic value") => factory_be::<_, {EXP_GOLOMB}, 7>;
     #[kani::stub(alloc::fmt::format, stub_format)]
     #[kani::stub(std::string::ToString::to_string, stub_to_string)]
     #[kani::stub(std::backtrace::Backtrace::capture, stub_backtrace_capture)]
+    #[kani::stub(<anyhow::Error as core::ops::Drop>::drop, stub_anyhow_drop)]
     #[kani::unwind(12)]
     c10_factory_exp_golomb7_le (thorough, "FactoryFuncCodeReader::new(Codes::ExpGolomb param 7) over a reader factory, LE stream", "get() and inner() vs the code own method; symbolic value") => factory_le::<_, {EXP_GOLOMB}, 7>;
     #[kani::stub(alloc::fmt::format, stub_format)]
     #[kani::stub(std::string::ToString::to_string, stub_to_string)]
     #[kani::stub(std::backtrace::Backtrace::capture, stub_backtrace_capture)]
+    #[kani::stub(<anyhow::Error as core::ops::Drop>::drop, stub_anyhow_drop)]
     #[kani::unwind(12)]
     c10_factory_exp_golomb8_be (thorough, "FactoryFuncCodeReader::new(Codes::ExpGolomb param 8) over a reader factory, BE stream", "get() and inner() vs the code own method; symbolic value") => factory_be::<_, {EXP_GOLOMB}, 8>;
     #[kani::stub(alloc::fmt::format, stub_format)]
     #[kani::stub(std::string::ToString::to_string, stub_to_string)]
     #[kani::stub(std::backtrace::Backtrace::capture, stub_backtrace_capture)]
+    #[kani::stub(<anyhow::Error as core::ops::Drop>::drop, stub_anyhow_drop)]
     #[kani::unwind(12)]
     c10_factory_exp_golomb8_le (thorough, "FactoryFuncCodeReader::new(Codes::ExpGolomb param 8) over a reader factory, LE stream", "get() and inner() vs the code own method; symbolic value") => factory_le::<_, {EXP_GOLOMB}, 8>;
     #[kani::stub(alloc::fmt::format, stub_format)]
     #[kani::stub(std::string::ToString::to_string, stub_to_string)]
     #[kani::stub(std::backtrace::Backtrace::capture, stub_backtrace_capture)]
+    #[kani::stub(<anyhow::Error as core::ops::Drop>::drop, stub_anyhow_drop)]
     #[kani::unwind(12)]
     c10_factory_exp_golomb9_be (thorough, "FactoryFuncCodeReader::new(Codes::ExpGolomb param 9) over a reader factory, BE stream", "get() and inner() vs the code own method; symbolic value") => factory_be::<_, {EXP_GOLOMB}, 9>;
     #[kani::stub(alloc::fmt::format, stub_format)]
     #[kani::stub(std::string::ToString::to_string, stub_to_string)]
     #[kani::stub(std::backtrace::Backtrace::capture, stub_backtrace_capture)]
+    #[kani::stub(<anyhow::Error as core::ops::Drop>::drop, stub_anyhow_drop)]
     #[kani::unwind(12)]
     c10_factory_exp_golomb9_le (thorough, "FactoryFuncCodeReader::new(Codes::ExpGolomb param 9) over a reader factory, LE stream", "get() and inner() vs the code own method; symbolic value") => factory_le::<_, {EXP_GOLOMB}, 9>;
     #[kani::stub(alloc::fmt::format, stub_format)]
     #[kani::stub(std::string::ToString::to_string, stub_to_string)]
     #[kani::stub(std::backtrace::Backtrace::capture, stub_backtrace_capture)]
+    #[kani::stub(<anyhow::Error as core::ops::Drop>::drop, stub_anyhow_drop)]
     #[kani::unwind(12)]
     c10_factory_exp_golomb10_be (thorough, "FactoryFuncCodeReader::new(Codes::ExpGolomb param 10) over a reader factory, BE stream", "get() and inner() vs the code own method; symbolic value") => factory_be::<_, {EXP_GOLOMB}, 10>;
     #[kani::stub(alloc::fmt::format, stub_format)]
     #[kani::stub(std::string::ToString::to_string, stub_to_string)]
     #[kani::stub(std::backtrace::Backtrace::capture, stub_backtrace_capture)]
+    #[kani::stub(<anyhow::Error as core::ops::Drop>::drop, stub_anyhow_drop)]
     #[kani::unwind(12)]
     c10_factory_exp_golomb10_le (thorough, "FactoryFuncCodeReader::new(Codes::ExpGolomb param 10) over a reader factory, LE stream", "get() and inner() vs the code own method; symbolic value") => factory_le::<_, {EXP_GOLOMB}, 10>;
     #[kani::stub(alloc::fmt::format, stub_format)]
     #[kani::stub(std::string::ToString::to_string, stub_to_string)]
     #[kani::stub(std::backtrace::Backtrace::capture, stub_backtrace_capture)]
+    #[kani::stub(<anyhow::Error as core::ops::Drop>::drop, stub_anyhow_drop)]
     #[kani::unwind(12)]
     c10_factory_rice0_be (quick, "FactoryFuncCodeReader::new(Codes::Rice param 0) over a reader factory, BE stream", "get() and inner() vs the code own method; symbolic value") => factory_be::<_, {RICE}, 0>;
     #[kani::stub(alloc::fmt::format, stub_format)]
     #[kani::stub(std::string::ToString::to_string, stub_to_string)]
     #[kani::stub(std::backtrace::Backtrace::capture, stub_backtrace_capture)]
+    #[kani::stub(<anyhow::Error as core::ops::Drop>::drop, stub_anyhow_drop)]
     #[kani::unwind(12)]
     c10_factory_rice0_le (thorough, "FactoryFuncCodeReader::new(Codes::Rice param 0) over a reader factory, LE stream", "get() and inner() vs the code own method; symbolic value") => factory_le::<_, {RICE}, 0>;
     #[kani::stub(alloc::fmt::format, stub_format)]
     #[kani::stub(std::string::ToString::to_string, stub_to_string)]
     #[kani::stub(std::backtrace::Backtrace::capture, stub_backtrace_capture)]
+    #[kani::stub(<anyhow::Error as core::ops::Drop>::drop, stub_anyhow_drop)]
     #[kani::unwind(12)]
     c10_factory_rice1_be (thorough, "FactoryFuncCodeReader::new(Codes::Rice param 1) over a reader factory, BE stream", "get() and inner() vs the code own method; symbolic value") => factory_be::<_, {RICE}, 1>;
     #[kani::stub(alloc::fmt::format, stub_format)]
     #[kani::stub(std::string::ToString::to_string, stub_to_string)]
     #[kani::stub(std::backtrace::Backtrace::capture, stub_backtrace_capture)]
+    #[kani::stub(<anyhow::Error as core::ops::Drop>::drop, stub_anyhow_drop)]
     #[kani::unwind(12)]
     c10_factory_rice1_le (thorough, "FactoryFuncCodeReader::new(Codes::Rice param 1) over a reader factory, LE stream", "get() and inner() vs the code own method; symbolic value") => factory_le::<_, {RICE}, 1>;
     #[kani::stub(alloc::fmt::format, stub_format)]
     #[kani::stub(std::string::ToString::to_string, stub_to_string)]
     #[kani::stub(std::backtrace::Backtrace::capture, stub_backtrace_capture)]
+    #[kani::stub(<anyhow::Error as core::ops::Drop>::drop, stub_anyhow_drop)]
     #[kani::unwind(12)]
     c10_factory_rice2_be (thorough, "FactoryFuncCodeReader::new(Codes::Rice param 2) over a reader factory, BE stream", "get() and inner() vs the code own method; symbolic value") => factory_be::<_, {RICE}, 2>;
     #[kani::stub(alloc::fmt::format, stub_format)]
     #[kani::stub(std::string::ToString::to_string, stub_to_string)]
     #[kani::stub(std::backtrace::Backtrace::capture, stub_backtrace_capture)]
+    #[kani::stub(<anyhow::Error as core::ops::Drop>::drop, stub_anyhow_drop)]
     #[kani::unwind(12)]
     c10_factory_rice2_le (thorough, "FactoryFuncCodeReader::new(Codes::Rice param 2) over a reader factory, LE stream", "get() and inner() vs the code own method; symbolic value") => factory_le::<_, {RICE}, 2>;
     #[kani::stub(alloc::fmt::format, stub_format)]
     #[kani::stub(std::string::ToString::to_string, stub_to_string)]
     #[kani::stub(std::backtrace::Backtrace::capture, stub_backtrace_capture)]
+    #[kani::stub(<anyhow::Error as core::ops::Drop>::drop, stub_anyhow_drop)]
     #[kani::unwind(12)]
     c10_factory_rice3_be (thorough, "FactoryFuncCodeReader::new(Codes::Rice param 3) over a reader factory, BE stream", "get() and inner() vs the code own method; symbolic value") => factory_be::<_, {RICE}, 3>;
     #[kani::stub(alloc::fmt::format, stub_format)]
     #[kani::stub(std::string::ToString::to_string, stub_to_string)]
     #[kani::stub(std::backtrace::Backtrace::capture, stub_backtrace_capture)]
+    #[kani::stub(<anyhow::Error as core::ops::Drop>::drop, stub_anyhow_drop)]
     #[kani::unwind(12)]
     c10_factory_rice3_le (thorough, "FactoryFuncCodeReader::new(Codes::Rice param 3) over a reader factory, LE stream", "get() and inner() vs the code own method; symbolic value") => factory_le::<_, {RICE}, 3>;
     #[kani::stub(alloc::fmt::format, stub_format)]
     #[kani::stub(std::string::ToString::to_string, stub_to_string)]
     #[kani::stub(std::backtrace::Backtrace::capture, stub_backtrace_capture)]
+    #[kani::stub(<anyhow::Error as core::ops::Drop>::drop, stub_anyhow_drop)]
     #[kani::unwind(12)]
     c10_factory_rice4_be (thorough, "FactoryFuncCodeReader::new(Codes::Rice param 4) over a reader factory, BE stream", "get() and inner() vs the code own method; symbolic value") => factory_be::<_, {RICE}, 4>;
     #[kani::stub(alloc::fmt::format, stub_format)]
     #[kani::stub(std::string::ToString::to_string, stub_to_string)]
     #[kani::stub(std::backtrace::Backtrace::capture, stub_backtrace_capture)]
+    #[kani::stub(<anyhow::Error as core::ops::Drop>::drop, stub_anyhow_drop)]
     #[kani::unwind(12)]
     c10_factory_rice4_le (thorough, "FactoryFuncCodeReader::new(Codes::Rice param 4) over a reader factory, LE stream", "get() and inner() vs the code own method; symbolic value") => factory_le::<_, {RICE}, 4>;
     #[kani::stub(alloc::fmt::format, stub_format)]
     #[kani::stub(std::string::ToString::to_string, stub_to_string)]
     #[kani::stub(std::backtrace::Backtrace::capture, stub_backtrace_capture)]
+    #[kani::stub(<anyhow::Error as core::ops::Drop>::drop, stub_anyhow_drop)]
     #[kani::unwind(12)]
     c10_factory_rice5_be (thorough, "FactoryFuncCodeReader::new(Codes::Rice param 5) over a reader factory, BE stream", "get() and inner() vs the code own method; symbolic value") => factory_be::<_, {RICE}, 5>;
     #[kani::stub(alloc::fmt::format, stub_format)]
     #[kani::stub(std::string::ToString::to_string, stub_to_string)]
     #[kani::stub(std::backtrace::Backtrace::capture, stub_backtrace_capture)]
+    #[kani::stub(<anyhow::Error as core::ops::Drop>::drop, stub_anyhow_drop)]
     #[kani::unwind(12)]
     c10_factory_rice5_le (thorough, "FactoryFuncCodeReader::new(Codes::Rice param 5) over a reader factory, LE stream", "get() and inner() vs the code own method; symbolic value") => factory_le::<_, {RICE}, 5>;
     #[kani::stub(alloc::fmt::format, stub_format)]
     #[kani::stub(std::string::ToString::to_string, stub_to_string)]
     #[kani::stub(std::backtrace::Backtrace::capture, stub_backtrace_capture)]
+    #[kani::stub(<anyhow::Error as core::ops::Drop>::drop, stub_anyhow_drop)]
     #[kani::unwind(12)]
     c10_factory_rice6_be (thorough, "FactoryFuncCodeReader::new(Codes::Rice param 6) over a reader factory, BE stream", "get() and inner() vs the code own method; symbolic value") => factory_be::<_, {RICE}, 6>;
     #[kani::stub(alloc::fmt::format, stub_format)]
     #[kani::stub(std::string::ToString::to_string, stub_to_string)]
     #[kani::stub(std::backtrace::Backtrace::capture, stub_backtrace_capture)]
+    #[kani::stub(<anyhow::Error as core::ops::Drop>::drop, stub_anyhow_drop)]
     #[kani::unwind(12)]
     c10_factory_rice6_le (thorough, "FactoryFuncCodeReader::new(Codes::Rice param 6) over a reader factory, LE stream", "get() and inner() vs the code own method; symbolic value") => factory_le::<_, {RICE}, 6>;
     #[kani::stub(alloc::fmt::format, stub_format)]
     #[kani::stub(std::string::ToString::to_string, stub_to_string)]
     #[kani::stub(std::backtrace::Backtrace::capture, stub_backtrace_capture)]
+    #[kani::stub(<anyhow::Error as core::ops::Drop>::drop, stub_anyhow_drop)]
     #[kani::unwind(12)]
     c10_factory_rice7_be (thorough, "FactoryFuncCodeReader::new(Codes::Rice param 7) over a reader factory, BE stream", "get() and inner() vs the code own method; symbolic value") => factory_be::<_, {RICE}, 7>;
     #[kani::stub(alloc::fmt::format, stub_format)]
     #[kani::stub(std::string::ToString::to_string, stub_to_string)]
     #[kani::stub(std::backtrace::Backtrace::capture, stub_backtrace_capture)]
+    #[kani::stub(<anyhow::Error as core::ops::Drop>::drop, stub_anyhow_drop)]
     #[kani::unwind(12)]
     c10_factory_rice7_le (thorough, "FactoryFuncCodeReader::new(Codes::Rice param 7) over a reader factory, LE stream", "get() and inner() vs the code own method; symbolic value") => factory_le::<_, {RICE}, 7>;
     #[kani::stub(alloc::fmt::format, stub_format)]
     #[kani::stub(std::string::ToString::to_string, stub_to_string)]
     #[kani::stub(std::backtrace::Backtrace::capture, stub_backtrace_capture)]
+    #[kani::stub(<anyhow::Error as core::ops::Drop>::drop, stub_anyhow_drop)]
     #[kani::unwind(12)]
     c10_factory_rice8_be (thorough, "FactoryFuncCodeReader::new(Codes::Rice param 8) over a reader factory, BE stream", "get() and inner() vs the code own method; symbolic value") => factory_be::<_, {RICE}, 8>;
     #[kani::stub(alloc::fmt::format, stub_format)]
     #[kani::stub(std::string::ToString::to_string, stub_to_string)]
     #[kani::stub(std::backtrace::Backtrace::capture, stub_backtrace_capture)]
+    #[kani::stub(<anyhow::Error as core::ops::Drop>::drop, stub_anyhow_drop)]
     #[kani::unwind(12)]
     c10_factory_rice8_le (thorough, "FactoryFuncCodeReader::new(Codes::Rice param 8) over a reader factory, LE stream", "get() and inner() vs the code own method; symbolic value") => factory_le::<_, {RICE}, 8>;
     #[kani::stub(alloc::fmt::format, stub_format)]
     #[kani::stub(std::string::ToString::to_string, stub_to_string)]
     #[kani::stub(std::backtrace::Backtrace::capture, stub_backtrace_capture)]
+    #[kani::stub(<anyhow::Error as core::ops::Drop>::drop, stub_anyhow_drop)]
     #[kani::unwind(12)]
     c10_factory_rice9_be (thorough, "FactoryFuncCodeReader::new(Codes::Rice param 9) over a reader factory, BE stream", "get() and inner() vs the code own method; symbolic value") => factory_be::<_, {RICE}, 9>;
     #[kani::stub(alloc::fmt::format, stub_format)]
     #[kani::stub(std::string::ToString::to_string, stub_to_string)]
     #[kani::stub(std::backtrace::Backtrace::capture, stub_backtrace_capture)]
+    #[kani::stub(<anyhow::Error as core::ops::Drop>::drop, stub_anyhow_drop)]
     #[kani::unwind(12)]
     c10_factory_rice9_le (thorough, "FactoryFuncCodeReader::new(Codes::Rice param 9) over a reader factory, LE stream", "get() and inner() vs the code own method; symbolic value") => factory_le::<_, {RICE}, 9>;
     #[kani::stub(alloc::fmt::format, stub_format)]
     #[kani::stub(std::string::ToString::to_string, stub_to_string)]
     #[kani::stub(std::backtrace::Backtrace::capture, stub_backtrace_capture)]
+    #[kani::stub(<anyhow::Error as core::ops::Drop>::drop, stub_anyhow_drop)]
     #[kani::unwind(12)]
     c10_factory_rice10_be (thorough, "FactoryFuncCodeReader::new(Codes::Rice param 10) over a reader factory, BE stream", "get() and inner() vs the code own method; symbolic value") => factory_be::<_, {RICE}, 10>;
     #[kani::stub(alloc::fmt::format, stub_format)]
     #[kani::stub(std::string::ToString::to_string, stub_to_string)]
     #[kani::stub(std::backtrace::Backtrace::capture, stub_backtrace_capture)]
+    #[kani::stub(<anyhow::Error as core::ops::Drop>::drop, stub_anyhow_drop)]
     #[kani::unwind(12)]
     c10_factory_rice10_le (thorough, "FactoryFuncCodeReader::new(Codes::Rice param 10) over a reader factory, LE stream", "get() and inner() vs the code own method; symbolic value") => factory_le::<_, {RICE}, 10>;
 }
